@@ -136,7 +136,39 @@ def run_driver(binary, test, sched, out, env_extra=None, nruns=None, per_run_tim
             f.write(json.dumps(dict(k='RunEnd', n=1, t=0, g=-1, svc='', ch=-1, seq=-1, st=-1, pid=-1, hex='', a=ids[done], b=-1, s='')) + '\n')
         frm = done + 1
     sanitize_trace(out)
+    if mode == 'real':
+        annotate_stalls(out)
     return info
+
+
+def annotate_stalls(path):
+    """Real-time runs: the driver's watchdog records how late the process was woken (Stall events). The
+    largest lateness of a run is written into its Cfg event (field st); the observers widen their UPPER
+    time bounds by it -- a starved machine delays the client's timers too -- and never their lower bounds."""
+    lines = open(path).read().split('\n')
+    out, cur, cfg_ix, worst = [], [], None, 0
+
+    def close():
+        nonlocal cur, cfg_ix, worst
+        if cfg_ix is not None and worst > 0:
+            e = json.loads(cur[cfg_ix])
+            e['st'] = worst
+            cur[cfg_ix] = json.dumps(e)
+        out.extend(cur)
+        cur, cfg_ix, worst = [], None, 0
+    for l in lines:
+        if not l:
+            continue
+        cur.append(l)
+        if '"k":"Cfg"' in l or '"k": "Cfg"' in l:
+            cfg_ix = len(cur) - 1
+        elif '"k":"Stall"' in l:
+            worst = max(worst, json.loads(l)['a'])
+        elif '"k":"RunEnd"' in l or '"k": "RunEnd"' in l:
+            close()
+    close()
+    with open(path, 'w') as f:
+        f.write('\n'.join(out) + '\n')
 
 
 def sanitize_trace(path):
